@@ -31,7 +31,7 @@ from .cache_data import cache_enter_count, cache_search_count, cache_match_count
     IndexedCache, get_cache_keys_for_class_, yield_class_values_from_cache
 from .failures import MultipleSolutionFound, NoSolutionFound
 from .utils import IDGenerator, is_iterable, render_tree, generate_combinations, lazy_iterate_dicts
-from .hashed_data import HashedValue, HashedIterable, T
+from .hashed_data import HashedValue, HashedIterable, IdentifiedByItself, T
 
 if TYPE_CHECKING:
     from .conclusion import Conclusion
@@ -65,7 +65,7 @@ id_generator = IDGenerator()
 RWXNode.enclosed_name = "Selected Variable"
 
 @dataclass(eq=False)
-class SymbolicExpression(Generic[T], ABC):
+class SymbolicExpression(IdentifiedByItself, Generic[T], ABC):
     """
     Base class for all symbolic expressions.
 
